@@ -274,6 +274,8 @@ seed('c07-rs-flag-before-path', 'C07', [(RS, "        path = reedsShepp(from, to
 seed('c07-n-rv-lerp-form', 'C07', [(RV, "        rstate->values[i] = rfrom->values[i] + (rto->values[i] - rfrom->values[i]) * t;", "        rstate->values[i] = (1.0 - t) * rfrom->values[i] + t * rto->values[i];")], None)
 seed('c07-n-time-local', 'C07', [(TIMC, "    state->as<StateType>()->position =\n        from->as<StateType>()->position + (to->as<StateType>()->position - from->as<StateType>()->position) * t;", "    const double a = from->as<StateType>()->position, b = to->as<StateType>()->position;\n    state->as<StateType>()->position = a + (b - a) * t;")], None)
 seed('c07-n-so2-rewrap-reordered', 'C07', [(SO2C, "        if (v > pi)\n            v -= 2.0 * pi;\n        else if (v < -pi)\n            v += 2.0 * pi;\n    }\n}\n\nompl::base::StateSamplerPtr ompl::base::SO2StateSpace::allocDefaultStateSampler", "        if (v < -pi)\n            v += 2.0 * pi;\n        else if (v > pi)\n            v -= 2.0 * pi;\n    }\n}\n\nompl::base::StateSamplerPtr ompl::base::SO2StateSpace::allocDefaultStateSampler")], None)
+seed('c07-n-so2-rewrap-upper-inclusive', 'C07', [(SO2C, "        if (v > pi)\n            v -= 2.0 * pi;\n        else if (v < -pi)", "        if (v >= pi)\n            v -= 2.0 * pi;\n        else if (v < -pi)")], None)
+seed('c07-so2-rewrap-lower-inclusive', 'C07', [(SO2C, "        else if (v < -pi)\n            v += 2.0 * pi;\n    }\n}\n\nompl::base::StateSamplerPtr ompl::base::SO2StateSpace::allocDefaultStateSampler", "        else if (v <= -pi)\n            v += 2.0 * pi;\n    }\n}\n\nompl::base::StateSamplerPtr ompl::base::SO2StateSpace::allocDefaultStateSampler")], 'R07c')
 seed('c07-n-rs-flag-order', 'C07', [(RS, "        path = reedsShepp(from, to);\n        firstTime = false;\n    }\n    interpolate(from, path, t, state);", "        firstTime = false;\n        path = reedsShepp(from, to);\n    }\n    interpolate(from, path, t, state);")], None)
 
 # ---- C14 -------------------------------------------------------------------------------------------------------
